@@ -1187,10 +1187,11 @@ theorem module_env_notify_all {r : Resolved} {m : Module} {genv env : Env}
     unfold finishEnv notifyAllEnv
     rw [hna, if_pos rfl, merge_get _ _ hloc, insert_get, if_pos rfl]
 
-/-- a `single` value of `notify` (from the global env or an export) makes `build_env` panic -/
-theorem notify_single_panics (env : Env) (dep : Module) (s : String)
+/-- a `single` value of `notify` (from the global env or an export) is rejected by `build_env`
+    with a reported error (it used to be a panic: `notify_single_panics`) -/
+theorem notify_single_rejected (env : Env) (dep : Module) (s : String)
     (h : env.get "notify" = some (.single s)) :
-    notifyAppend env dep = .error (.panic "module.rs:build_env unexpected notify value") := by
+    notifyAppend env dep = .error (.error "module.rs:build_env notify must be a list") := by
   unfold notifyAppend
   rw [h]
 
@@ -1427,11 +1428,10 @@ example :
       "modules" = some (.list ["app", "lib", "x"]) := by decide
 
 /-- (d) a plain-string variable called `notify` (exported by an imported module, or global)
-    makes `build_env` PANIC ("unexpected notify value") instead of reporting an error -/
+    makes `build_env` fail with the reported error "notify must be a list" (formerly a panic) -/
 example :
-    (match buildEnv ⟨[exApp, { exLib with envExport := [("notify", .single "oops")] }], []⟩ exApp [] with
-      | .error (.panic _) => true
-      | _ => false) = true := by decide
+    buildEnv ⟨[exApp, { exLib with envExport := [("notify", .single "oops")] }], []⟩ exApp [] =
+      .error (.error "module.rs:build_env notify must be a list") := by decide
 
 end Examples
 
